@@ -31,6 +31,7 @@ func main() {
 	if len(os.Args) < 2 {
 		usage()
 	}
+	eng.BaselinePath = filepath.Join(verifDir(), "baseline_funcs.tsv")
 	switch os.Args[1] {
 	case "check":
 		os.Exit(cmdCheck(os.Args[2:]))
@@ -38,6 +39,16 @@ func main() {
 		os.Exit(cmdReplay(os.Args[2:]))
 	case "dump":
 		os.Exit(cmdDump(os.Args[2:]))
+	case "baseline":
+		eng.BaselinePath = ""
+		p, err := load.Load(load.Config{})
+		if err != nil {
+			fmt.Println(err)
+			os.Exit(2)
+		}
+		for _, l := range eng.NewCtx(p).BaselineLines() {
+			fmt.Println(l)
+		}
 	case "warm":
 		p, err := load.Load(load.Config{})
 		if err != nil {
